@@ -7,7 +7,7 @@ request-memory semaphore of a Server (real acquireRequestSema / releaseRequestBu
 and on NewServer's option handling.
 Search (exploration): bursts of concurrent requests of random sizes against small limits, end-to-end, under -race.
 """
-from checks.rpccalls_common import inpkg_harness, replay_lines, product, parse_steps
+from checks.rpccalls_common import inpkg_harness, replay_lines, product, parse_steps, compress_dist
 from checks import rpccalls_e2e
 
 MODULES = ["TLVerif.Props.C39"]
@@ -264,6 +264,7 @@ def run(c):
                 lines.append("rpccalls.srv %d %d %d" % (l, b, w))
     lines = list(dict.fromkeys(lines))
     res = c.tie("limits", lines, impl, model, nontrivial=lambda l, a: "g" in a or "a" in a or l.startswith("rpccalls.srv"))
+    compress_dist(c)
     for l, a, _ in res:
         if a in ("bad-op",):
             continue
